@@ -85,6 +85,9 @@
 
 pub mod query;
 
+#[cfg(feature = "verif-hooks")]
+pub mod verif;
+
 #[allow(clippy::module_inception)]
 pub mod parser;
 
